@@ -72,3 +72,34 @@ Proof.
   f_equal. replace (S (length n) + count_re_space t)%nat with (length n + S (count_re_space t))%nat by lia.
   rewrite firstn_app_2. reflexivity.
 Qed.
+
+(* without the edge hypothesis: whatever blanks stand at either end of the line, the text comes back
+   trimmed and the character attribute starts at 0 and ends where the prefix ends in the trimmed text
+   (L leading blanks are cut from it; it never reaches beyond the trimmed text) *)
+Theorem character_prefix_general n t :
+  forallb plain_rune n = true -> forallb no_colon n = true -> forallb plain_rune t = true ->
+  let T := n ++ 58%N :: t in
+  let L := (Z.of_nat (length T) - Z.of_nat (length (trim_left T)))%Z in
+  parse_markup T =
+  Some (trim_space T,
+        [{| aname := STR "character"; apos := 0;
+            alen := Z.max 0 (Z.min (Z.of_nat (S (length n) + count_re_space t) - L) (Z.of_nat (length (trim_space T))));
+            asrc := 0; aprops := [(STR "name", MStr (trim_space n))] |}]).
+Proof.
+  intros Hn Hc Ht T L.
+  assert (HpT : forallb plain_rune T = true).
+  { unfold T. apply forallb_app_true; [exact Hn|]. cbn [forallb]. rewrite Ht. reflexivity. }
+  unfold parse_markup. rewrite main_loop_plain by (auto; lia).
+  cbn [rev app build_attrs sort_attrs fold_right existsb].
+  assert (Hfc : find_colon T 0 = Some (length n, (S (length n) + count_re_space t)%nat)).
+  { unfold T. rewrite find_colon_first by exact Hc. reflexivity. }
+  rewrite Hfc. cbn [app map aname apos alen asrc aprops]. f_equal. f_equal.
+  assert (Hfn : firstn (length n) T = n).
+  { unfold T. rewrite firstn_app, firstn_all, Nat.sub_diag. cbn [firstn]. apply app_nil_r. }
+  rewrite Hfn. fold L.
+  assert (HL : (0 <= L)%Z).
+  { unfold L. assert (forall s, (length (trim_left s) <= length s)%nat) as Hs.
+    { induction s as [|c s IH]; cbn [trim_left length]; [lia|]. destruct (is_space c); cbn [length]; lia. }
+    specialize (Hs T). lia. }
+  f_equal. unfold clampz. f_equal; lia.
+Qed.
